@@ -41,11 +41,12 @@ func (r *ResponseFilter) Filter(msg proto.Message) {
 	if msg == nil {
 		return
 	}
-	if len(r.fields.GetPaths()) == 0 {
+	paths := r.filterPaths(msg)
+	if len(paths) == 0 {
 		proto.Reset(msg)
 		return
 	}
-	fmutils.Filter(msg, r.fields.GetPaths())
+	fmutils.Filter(msg, paths)
 }
 
 // FilterClone is like Filter but clones and returns a new msg instead of modifying the original.
@@ -56,14 +57,20 @@ func (r *ResponseFilter) FilterClone(msg proto.Message) proto.Message {
 	if msg == nil {
 		return msg
 	}
-	if len(r.fields.GetPaths()) == 0 {
-		clone := proto.Clone(msg)
+	clone := proto.Clone(msg)
+	paths := r.filterPaths(msg)
+	if len(paths) == 0 {
 		proto.Reset(clone)
 		return clone
 	}
-	clone := proto.Clone(msg)
-	fmutils.Filter(clone, r.fields.GetPaths())
+	fmutils.Filter(clone, paths)
 	return clone
+}
+
+// filterPaths returns the normalized paths of the configured field mask.
+// fmutils gives a child path precedence over its parent so ["a", "a.b"] would select only a.b.
+func (r *ResponseFilter) filterPaths(_ proto.Message) []string {
+	return normalizedPaths(r.fields)
 }
 
 type ResponseFilterOption func(*ResponseFilter)
